@@ -53,9 +53,7 @@ func buildHeapModel(c *Ctx) *heapModel {
 		c.undecided("ANCHOR", "heapq.Queue", 0, "type not found")
 		return nil
 	}
-	st := m.queueT.Underlying().(*types.Struct)
-	for i := 0; i < st.NumFields(); i++ {
-		f := st.Field(i)
+	for _, f := range P.FieldsDeep("heapq", "Queue") {
 		switch t := f.Type().Underlying().(type) {
 		case *types.Slice:
 			m.dataF = f
@@ -71,7 +69,7 @@ func buildHeapModel(c *Ctx) *heapModel {
 		c.undecided("ANCHOR", "heapq.Queue fields", 0, "expected a slice field, a comparison field and a move-callback field")
 		return nil
 	}
-	m.methods = P.Methods("heapq", "Queue")
+	m.methods = P.MethodsDeep("heapq", "Queue")
 	// swap: method with exactly two element stores into q.data and two int params
 	for _, fn := range m.methods {
 		n := 0
@@ -224,7 +222,7 @@ func runC05(c *Ctx) {
 	c.Extra["roles"] = map[string]string{"sift-up": fnName(m.siftUp), "sift-down": fnName(m.siftDn), "exchange": fnName(m.swapFn)}
 
 	// ---- parent form: the non-loop-variable argument of swap in sift-up
-	upName := fnName(m.siftUp)
+	upName := "heapq sift-up" // keys name the role, not the function: a rename or a move of the method must not change them
 	var parentOK bool
 	upKnown := relatedPhis(m.upPhi) // e.g. `for up := i/2; …; up = i/2`
 	for ei, a := range m.upPhi.Edges {
@@ -275,7 +273,7 @@ func runC05(c *Ctx) {
 		return
 	}
 	// ---- child forms
-	dnName := fnName(m.siftDn)
+	dnName := "heapq sift-down"
 	known := relatedPhis(m.dnPhi)
 	stop := map[ssa.Value]bool{m.dnPhi: true}
 	for v := range known {
@@ -799,6 +797,58 @@ func runC06(c *Ctx) {
 				why = "the reporting loop does not cover every index"
 			}
 		})
+		// the loop may be written as a range over a standard index iterator of the buffer
+		// (for i := range slices.Backward(q.data) / slices.All(q.data)): its body is a closure whose first
+		// parameter is the index; the iterator visits every index
+		for _, cl := range fn.AnonFuncs {
+			if found || len(cl.Params) == 0 {
+				continue
+			}
+			reports := false
+			allInstrs(cl, func(in2 ssa.Instruction) {
+				if isNotify(in2, cl.Params[0]) {
+					reports = true
+				}
+			})
+			if !reports {
+				continue
+			}
+			allInstrs(fn, func(in2 ssa.Instruction) {
+				call, ok := in2.(*ssa.Call)
+				if !ok || len(call.Call.Args) != 1 {
+					return
+				}
+				mc, ok := call.Call.Args[0].(*ssa.MakeClosure)
+				if !ok || mc.Fn != ssa.Value(cl) {
+					return
+				}
+				// the callee value is the iterator: a call of slices.Backward / slices.All on a load of q.data
+				it, ok := call.Call.Value.(*ssa.Call)
+				if !ok {
+					return
+				}
+				sc := it.Call.StaticCallee()
+				if sc == nil || sc.Pkg == nil && origin(sc).Pkg == nil {
+					return
+				}
+				o := origin(sc)
+				if o.Pkg == nil || o.Pkg.Pkg.Path() != "slices" || (o.Name() != "Backward" && o.Name() != "All") || len(it.Call.Args) != 1 {
+					return
+				}
+				arg := it.Call.Args[0]
+				if ct, ok := arg.(*ssa.ChangeType); ok {
+					arg = ct.X
+				}
+				if !isLoadOfField(arg, m.dataF) {
+					return
+				}
+				if dominatesInstr(at, call) {
+					found = true
+				} else if why == "" {
+					why = "the reporting loop does not come after the bulk write"
+				}
+			})
+		}
 		if !found && why == "" {
 			why = "no reporting loop after the bulk write"
 		}
